@@ -81,6 +81,8 @@ def fam_c14(rnd, tier):
     for i in range(n // 2):
         out.append((f"c14cls:{i}", gen.program_c03(rnd), ["canon"]))
         out.append((f"c14clo:{i}", gen.program_c02(rnd), ["canon"]))
+    for i in range(n):
+        out.append((f"c14key:{i}", gen.program_c14_keys(rnd), ["canon"]))
     return out
 
 
